@@ -123,9 +123,8 @@ func builtinStringLastIndexOf(call FunctionCall) Value {
 		return intValue(lastIndexRune(value, target))
 	}
 	length := len(value)
-	if length == 0 {
-		return intValue(lastIndexRune(value, target))
-	}
+	// The position is converted even when the receiver is empty (15.5.4.8 step 4);
+	// the clamping below is safe for length == 0.
 	start := call.ArgumentList[1].number()
 	if start.kind == numberNaN || start.int64 >= int64(length) {
 		// NaN means +Infinity (15.5.4.8 step 5) and anything beyond the end is
